@@ -116,7 +116,9 @@ Fixpoint rewrite_go (old ingroup : bool) (ng : newgrp) (cond : str) (lines : lis
               let fl := key_eq (lit "flavor") is_wdp l in
               let emit (ng' : newgrp) (pre : list str) :=
                   bind (rewrite_go old ingroup ng' cond rest) (fun o => Ok (pre ++ l :: o)) in
-              let newstyle :=
+              (* a function, so that the strict evaluation of the extracted code does not
+                 walk the rest of the file once per enclosing alternative *)
+              let newstyle := fun (_ : unit) =>
                   match ng, fl with
                   | NGFlavors, Some g =>
                       rewrite_go old ingroup ng (cond ++ lit " || FLAVOR == " ++ g) rest
@@ -137,9 +139,9 @@ Fixpoint rewrite_go (old ingroup : bool) (ng : newgrp) (cond : str) (lines : lis
                          let t := if str_eqb (lower_str g) (lit "any") then lit "FLAVOR =~ .*"
                                   else lit "FLAVOR == " ++ g in
                          rewrite_go old ingroup ng (cond ++ sep ++ t) rest
-                     | None => newstyle
+                     | None => newstyle tt
                      end
-              else newstyle
+              else newstyle tt
           end
         end
       end
